@@ -405,6 +405,68 @@ def m_part(run, scr, nat):
     it.models.clear()
     it.models.update(saved)
 
+    # ---- GroupedQuantity::merge: every quantity held by the other group is handed to `add` exactly once (the add step itself is the
+    #      obligation above, so merges of any length follow by induction over the other group's entries)
+    f_gq_merge = c.dump.find_impl_method("merge", r"\(_1: &mut GroupedQuantity, _2: &GroupedQuantity, _3: &Converter\)")
+    run.functions.append("quantity::GroupedQuantity::{merge, iter} (MIR)")
+    ok = [stored("oknown%d" % i) for i in range(len(pqn))]
+    onounit = stored("onounit")
+    ounk = [Opaque("other unknown-unit quantity %d" % i) for i in range(2)]
+    oaside = [Opaque("other aside quantity %d" % i) for i in range(2)]
+    other = Agg("GroupedQuantity", {
+        str(gqf.index("known")): VecVal([k[0] for k in ok]),
+        str(gqf.index("unknown")): MapVal([(Opaque("other key %d" % i), ounk[i]) for i in range(2)]),
+        str(gqf.index("no_unit")): onounit[0],
+        str(gqf.index("other")): VecVal(list(oaside))})
+
+    def m_add_event(it_, a, callee):
+        it_.emit(("add", it_.deref(a[1], it_.cur_env) if not isinstance(a[1], Opaque) else a[1]))
+        return Opaque("unit")
+
+    def m_opt_iter(it_, a, callee):
+        o_ = a[0] if isinstance(a[0], Enum) else it_.deref(a[0], it_.cur_env)
+        return [(pc_, models.IterVal([payload] if is_some else []), "return", None) for pc_, is_some, payload in models.opt_cases(it_, o_)]
+    it.models.update(models.MORE_MODELS)
+    it.models.update({
+        r"^GroupedQuantity::add$|^quantity::GroupedQuantity::add$": m_add_event,
+        r"^enum_map::iter::<impl enum_map::EnumMap<.*>>::values$": lambda it_, a, cal: models.IterVal(list(it_.deref(a[0], it_.cur_env).items) if not isinstance(a[0], VecVal) else list(a[0].items)),
+        r"^<enum_map::Values<'_, .*> as Iterator>::filter_map::<": models.m_iter_filter_map,
+        r"^std::collections::HashMap::<.*>::values$": lambda it_, a, cal: models.IterVal([v for _, v in (a[0] if isinstance(a[0], MapVal) else it_.deref(a[0], it_.cur_env)).entries]),
+        r"^std::option::Option::<quantity::Quantity>::iter$": m_opt_iter,
+        r"^<(std::iter::)?Chain<.*> as IntoIterator>::into_iter$": models.m_iter_same,
+        r"^<(std::iter::)?Chain<.*> as Iterator>::next$": models.m_iter_next,
+        r"^<(std::iter::)?Chain<.*> as Iterator>::collect::<Vec<": lambda it_, a, cal: VecVal(models._iter_items(it_, a[0])),
+        r"^<(std::iter::)?Chain<.*> as Iterator>::for_each::<": models.m_for_each,
+        r"^<Vec<&quantity::Quantity> as IntoIterator>::into_iter$": models.m_vec_into_iter_owned,
+        r"^<std::vec::IntoIter<&quantity::Quantity> as Iterator>::next$": models.m_iter_next,
+    })
+    n_merge = 0
+    for o in it.run(f_gq_merge, [group, other, Opaque("converter")]):
+        p = ">".join(o.trace[-3:])
+        if o.kind == "panic":
+            ob("GroupedQuantity::merge never panics (%s)" % str(o.msg)[:40], o.pc, "true")
+            continue
+        if o.kind != "return":
+            continue
+        n_merge += 1
+        added = [e[1] for e in o.events if isinstance(e, tuple) and e[0] == "add"]
+        conds = []
+        for (opt_, tag_, tok_) in ok + [onounit]:
+            cnt = sum(1 for x in added if x is tok_)
+            conds.append("(= (= %s 1) %s)" % (tag_, "true" if cnt == 1 else "false"))
+            if cnt > 1:
+                conds.append("false")
+        for tok_ in ounk + oaside:
+            conds.append("true" if sum(1 for x in added if x is tok_) == 1 else "false")
+        known_toks = [t for (_, _, t) in ok + [onounit]] + ounk + oaside
+        conds.append("true" if all(any(x is t for t in known_toks) for x in added) else "false")
+        ob("GroupedQuantity::merge path[%s]: every quantity of the other group (each physical-quantity bucket, every unknown-unit entry, every aside "
+           "entry, the unitless bucket) is added exactly once, and nothing else is" % p, o.pc, "(not %s)" % c08.conj(conds))
+    if n_merge == 0:
+        run.inconclusive.append("GroupedQuantity::merge: no returning path")
+    it.models.clear()
+    it.models.update(saved)
+
     # ---- GroupedValue::add: one step from every valid shape (<= 1 non-text value, and only at index 0)
     def text(k):
         names = [v for v, _ in decls.enums["Value"]]
@@ -582,7 +644,7 @@ def check(run):
             run.violation("validation-vector group_scenario", "concrete try_add / GroupedValue::add histories misbehave: %s" % "; ".join(r.get("problems", [str(r)])[:3])[:600],
                           dict(engine="validation-vector", replay="group_scenario", args=list(args)))
     run.not_covered += [
-        "GroupedQuantity::add bucket selection (EnumMap + HashMap lookups + Converter), group_quantities, IngredientList, categorize by aisle: "
+        "group_quantities, IngredientList, categorize by aisle: "
         "hash maps / BTreeMap of Strings, out of reach of both engines - the parts a shopping-list user sees are NOT decided here",
         "GroupedValue::merge and groups with more than two text entries (loop over the other group)",
         "the conversion leg of ScaledQuantity::try_add is convert_f64 (decided under C09) followed by this try_add",
